@@ -142,11 +142,57 @@ def pdu_sizes(D):
                 table.append((cname, r))
     if not table:
         raise core.TranslatorFail(MODULES[0], 0, "no get_response_pdu_size found")
+    D["diag"] = diag_classes(dict(table))
     D["defs"] = "\n".join(defs)
     D["table"] = "Definition pdu_size_table : list (string * expr) :=\n  [" + \
                  ";\n   ".join("(%s, sz_%s)" % (coq_str(c), r) for c, r in table) + "]."
     D["normalise"] = "Definition normalises_message : list string := %s." % names_list(
         [c for c, r in table if r == diag_normalise])
+
+
+def diag_classes(resolved):
+    """every diagnostic request class of diag_message.py that carries a sub_function_code, in source
+    order, as (sub_function_code, class name); each must be registered in factory.py's
+    ServerDecoder sub-function table and must resolve to a get_response_pdu_size body."""
+    src = Src("pymodbus/diag_message.py")
+    fac = Src("pymodbus/factory.py")
+    classes = {n.name: n for n in src.mod.body if isinstance(n, ast.ClassDef)}
+
+    def is_request(name, seen=()):
+        if name == "DiagnosticStatusRequest":
+            return True
+        return any(b in classes and b not in seen and is_request(b, seen + (name,)) for b in class_bases(classes[name]))
+    registered = set()
+    tbl = None
+    for n in fac.cls("ServerDecoder").body:
+        if isinstance(n, ast.Assign) and len(n.targets) == 1 and ast.unparse(n.targets[0]) == "__sub_function_table":
+            tbl = n.value
+    if not isinstance(tbl, ast.List):
+        fac.fail(fac.cls("ServerDecoder"), "__sub_function_table is not a list literal")
+    for e in tbl.elts:
+        if not isinstance(e, ast.Name):
+            fac.fail(e, "__sub_function_table entry is not a class name")
+        registered.add(e.id)
+    rows, seen_subs = [], {}
+    for name, cls in classes.items():
+        if not is_request(name):
+            continue
+        sub = src.class_attr(name, "sub_function_code")
+        if sub is None:
+            continue                      # the abstract bases
+        code = core.const_int(src, sub)
+        if code in seen_subs:
+            src.fail(cls, "sub-function 0x%02x used by both %s and %s" % (code, seen_subs[code], name))
+        seen_subs[code] = name
+        if name not in resolved:
+            src.fail(cls, "%s has no get_response_pdu_size" % name)
+        if name not in registered:
+            src.fail(cls, "%s is not registered in ServerDecoder.__sub_function_table" % name)
+        rows.append("(%s, %s)" % (coq_z(code), coq_str(name)))
+    for name in registered:
+        if name in classes and name not in seen_subs.values():
+            src.fail(classes[name], "registered class %s has no sub_function_code" % name)
+    return coq_list(rows)
 
 
 # --------------------------------------------------------------------------- transaction.py
@@ -341,6 +387,8 @@ def generate():
            "(* concrete class -> the body it inherits *)", D["table"], "",
            "(* classes whose prediction first rewrites a scalar self.message into a one-element list *)",
            D["normalise"], "",
+           "(* every diagnostic request class with a sub_function_code (diag_message.py, registered in factory.py) *)",
+           "Definition diag_table : list (Z * string) :=\n  %s." % D["diag"], "",
            "(* ---- transaction.py ---- *)",
            "Definition base_adu_table : list (string * Z) := %s." % D["base_tab"],
            "Definition base_adu_default : Z := %s." % D["base_default"],
